@@ -254,6 +254,20 @@ CHECKS["C08"] = (
     "DESIGN.md section 3, C08",
 )
 
+CHECKS["C18"] = (
+    "ENUM + BFS + CPX",
+    "model_checking",
+    "bounded exhaustive enumeration of input strings x constraints through check/parse, call histories on one solver object, repair/mutate under owned random answers",
+    "For four grammars and a schema-stratified set of constraints, ALL strings up to 3 (thorough 4) terminal tokens plus all yields of the "
+    "tree universe are passed to check(str), parse(str) and check(tree): check must equal membership AND the reference semantics of the "
+    "parse tree, parse must raise SyntaxError / SemanticError / return a faithful tree accordingly, check(tree) must equal check(str). "
+    "Histories of one or two earlier calls on the SAME solver object (parse with a nonterminal, check on strings, trees and trees derived by "
+    "replace_path, solve) are followed by probes whose answers are known from a fresh solver. repair/mutate run with all random answers "
+    "owned by the explorer: a valid input must come back unchanged, every returned tree must be grammar-valid and satisfy the constraint.",
+    "Ambiguous grammar: syntax-level statements only. repair/mutate may return Nothing or hit the wall-clock cap.",
+    "DESIGN.md section 3, C18",
+)
+
 NOT_YET = "check not built yet in this round (planned in DESIGN.md section 3)"
 
 
